@@ -105,7 +105,13 @@ def run(ck):
             return None
         return st
     cfg.run_automaton(hs, 0, step, edge=edge, start=body)
-    vd = [d for d in hs.events("decl") if d.get("var") == "value"]
+    # the raw copy's value: the std::string local built from the cursor that is moved into the Raw passed to addRaw
+    vd = [d for d in hs.events("decl") if "string" in (d.get("type") or "") and "cursor.offset(" in " ".join(a.get("t") or "" for a in d.get("cargs", []))
+          and any(d["var"] in (x.get("t") or "") for a_ in ar for x in [a_]) ]
+    if not vd:
+        vd = [d for d in hs.events("decl") if "string" in (d.get("type") or "") and "cursor.offset(" in " ".join(a.get("t") or "" for a in d.get("cargs", []))
+              and d.block == ar[0].block]
+    vd = vd[-1:]
     same = bool(vd) and "cursor.offset(start)" in ((vd[0].get("init") or {}).get("t") or "") + " ".join(a.get("t") or "" for a in vd[0].get("cargs", [])) \
         and "cursor.diff(start)" in ((vd[0].get("init") or {}).get("t") or "") + " ".join(a.get("t") or "" for a in vd[0].get("cargs", []))
     pr = [e for e in hs.calls(lambda e: (e.get("callee") or "") == HH + "Header::parseRaw")]
